@@ -50,6 +50,12 @@ def run(ctx):
                 float(Fraction(rng.choice([1, 3, 5]), 2 ** rng.randrange(1, 8))),
                 float(Fraction(rng.choice([1, 3, 7]), 8)), float(Fraction(1, 2 ** rng.randrange(1, 10))),
                 float(Fraction(rng.choice([1, 3]), 2 ** rng.randrange(0, 5)))]
+        if rng.random() < 0.3:
+            # real-valued hyper-parameters given as Python ints (lr=1, damping=1, ...): still multiplied, never truncated
+            for j, pool in ((2, [1, 2]), (3, [1]), (4, [1, 3]), (5, [1, 2, 5])):
+                if rng.random() < 0.6:
+                    vals[j] = rng.choice(pool)
+            ctx.count('int-valued-real-parameters')
         sched = [rng.random() < 0.5 for _ in NAMES]
         lams = [gen_lambda(rng) if s else None for s in sched]
         p = make_precond(vals, [False] * 6)
